@@ -98,3 +98,16 @@ prop("C09",
      explanation="MUL/DIV loop termination for all 65 536 operand pairs is part of C01's loop theorems (see evidence of C01); here the harness runs MUL/DIV with random operands",
      assumptions=["level interrupts are constantly absent (Bus::get_level_interrupt returns None in the source)"],
      )
+
+prop("C07",
+     modules=["Emu2a.Props.C07"],
+     theorems=["Emu2a.C07.cpuReset_eq", "Emu2a.C07.cpuReset_is_new_with", "Emu2a.C07.masterReset_eq", "Emu2a.C07.load_eq",
+               "Emu2a.C07.load_history_independent", "Emu2a.C07.clockEdge_congr", "Emu2a.C07.runs_agree",
+               "Emu2a.C07.load_then_run", "Emu2a.C07.read_proj", "Emu2a.C07.write_proj"],
+     harness="c07",
+     level_text="Lean theorems for every machine state (hence after every history): cpuReset_eq / masterReset_eq list every field that is reset to its power-on value and every field that is kept; load_eq (RAM = image ++ zeros, limits, NOSET/AUTO rules); load_history_independent + clockEdge_congr + runs_agree: after a load any machine agrees with a newly created one up to the board, MISR/USR/UART bytes and step mode, and this agreement is preserved by every clock edge whose bus access is confined to RAM and 0xFC-0xFF, so such programs run cycle-for-cycle alike (induction over edges). Tied to the code by random histories with full dumps; resets after every prefix and reload-vs-fresh lock-step runs are also checked against the specification directly",
+     technique="Lean 4 field-wise equalities + bisimulation proof (projection invariant preserved by clockEdge) + differential histories, reset-after-every-prefix and reload-vs-fresh lock-step",
+     rule="histories of 20-220 ops from {load, edge, clock, irq, cont, resets, input/board setters, direct bus writes, program-driven port writes to 0xF0-0xFB}; after (nearly) every prefix: spec.cpureset and spec.masterreset on a copy (reset fields printed, kept fields compared before/after); 3 follow-up programs confined to RAM/0xFC-0xFF per history reloaded and compared edge by edge (600 edges) with a newly created machine carrying the same limits; distinct = distinct op lines",
+     explanation="Board::master_reset leaves the comparator status bits stale until the next update; neither C07 nor C14 quantifies over that",
+     assumptions=["`confined` programs are generated from direct-addressing templates; the theorem covers any program whose accesses are confined"],
+     )
